@@ -58,7 +58,7 @@ def harness(tier, seed):
             rows_ += len(ode) - 1
         return None, rows_
 
-    n_seq = 6 if tier == "quick" else 40
+    n_seq = 10 if tier == "quick" else 46      # six scripted histories, the rest random
     for (system, ctrl) in pairs:
         inst = Instance(system, ctrl)
         for cls in (FigureOfMerit, FigureOfMeritLE):
@@ -99,7 +99,9 @@ def harness(tier, seed):
                            ["eval", "get_diff", "eval", "get_diff", "init", "eval", "get_diff"],
                            ["eval", "get_diff", "set_model", "eval", "set_raw", "eval", "get_diff"],
                            ["eval", "set_model", "eval", "set_model2", "eval", "set_raw", "eval", "get_diff", "set_model2", "set_model",
-                            "init", "eval", "get_diff"]]
+                            "init", "eval", "get_diff"],
+                           # a surrogate switched in before anything was recorded, then initialize(): back on the real system
+                           ["set_model", "init", "eval", "get_diff", "set_model", "eval", "init", "eval", "get_diff"]]
                 if sq < len(scripts):
                     ops = scripts[sq]
                 else:
